@@ -341,7 +341,7 @@ def ev_single(case, rec):
     ev(case, rec)
 
 
-SUBCHECKS = [Sub('files', gen, ev_single, chunk=1, floor=1000)]
+SUBCHECKS = [Sub('files', gen, ev_single, chunk=1, floor=1000, guard=True)]
 
 
 def bounds(tier, seed):
